@@ -842,6 +842,87 @@ def _sym_reset():
     smtlib.reset_information()
 
 
+# ------------------------------------------------ inlining after a change
+def run_inline_history(tier):
+    """History: the input is queried (filter + mutations on the call), then
+    a numeral inside the body of a define-fun is changed by a substitution -
+    every other node object, the call included, is shared with the first
+    input - and collect_information runs again.  What InlineDefinedFuns now
+    offers for the *same* call node is decided against the changed
+    definitions."""
+    from ddsmt import nodeio, smtlib, nodes
+    from ddsmt.nodes import Node
+    from ddsmt.mutator_utils import apply_simp
+    from ddsmt.mutators_smtlib import InlineDefinedFuns
+    t0 = time.time()
+    n_q = n_inst = 0
+    qtime = 0.0
+    bad = None
+    unknown = []
+    for inst in fam_inline(bounds(tier)):
+        decls, term, sort = inst
+        if sort is None:
+            script = f'{decls}(assert {term})'
+        else:
+            script = f'{decls}(declare-const r__ {sort})(assert (= r__ {term}))'
+        A = list(nodeio.parse_smtlib(script))
+        numerals = [x for e in A if e.has_ident()
+                    and e.get_ident() == 'define-fun' and len(e) == 5
+                    for x in nodes.dfs(e[4]) if x.is_leaf()
+                    and x.data.isdigit()]
+        if not numerals:
+            continue
+        smtlib.reset_information()
+        smtlib.collect_information(A)
+        target = A[-1][1] if sort is None else A[-1][1][2]
+        mut = InlineDefinedFuns()
+        for x in nodes.dfs(A):
+            if mut.filter(x):
+                list(mut.mutations(x))
+        for num in numerals[:2]:
+            B = nodes.substitute(A, {num.id: Node(str(int(num.data) + 3))})
+            smtlib.collect_information(B)
+            tb = B[-1][1] if sort is None else B[-1][1][2]
+            if tb is not target or not mut.filter(tb):
+                continue
+            n_inst += 1
+            dtext = ''.join(e.__str__() for e in B[:-1]
+                            if 'r__' not in e.__str__())
+            for simp in mut.mutations(tb):
+                res = apply_simp(B, simp)
+                repl = res[-1][1] if sort is None else res[-1][1][2]
+                tq = time.time()
+                v, detail = decide(dtext, term, repl.__str__())
+                qtime += time.time() - tq
+                n_q += 1
+                if v in ('sat', 'sorterror') and bad is None:
+                    bad = {'instance': list(inst), 'changed': num.data,
+                           'decls': dtext, 'orig': term,
+                           'repl': repl.__str__(), 'verdict': v,
+                           'detail': detail}
+                elif v == 'unknown':
+                    unknown.append({'orig': term, 'repl': repl.__str__()})
+    smtlib.reset_information()
+    status = 'VIOLATED' if bad else ('UNKNOWN' if unknown else 'CONFIRMED')
+    if n_q == 0:
+        status = 'VACUOUS'
+    msg = None
+    if bad:
+        msg = (f'after the body numeral {bad["changed"]} of a define-fun was '
+               f'changed and collect_information ran again, InlineDefinedFuns '
+               f'offers {bad["orig"]} -> {bad["repl"]} under {bad["decls"]}: '
+               f'{bad["verdict"]} {bad["detail"]}')
+    return {'status': status, 'cex': bad,
+            'exc': {'type': 'Violation', 'msg': msg} if bad else None,
+            'paths': n_q, 'paths_ok': n_q - len(unknown),
+            'samples': [{'instances_with_history': n_inst}],
+            'solver_checks': n_q, 'solver_seconds': round(qtime, 2),
+            'solver_unknown': len(unknown),
+            'wall_s': round(time.time() - t0, 2),
+            'engine_error': None if not unknown else
+            f'{len(unknown)} queries undecided'}
+
+
 def known_region(fam, inst):
     """Regions of open known findings (KNOWN_FINDINGS.jsonl); instances in a
     region are still decided and counted but not re-reported.  (None open.)"""
@@ -858,6 +939,10 @@ def partitions(tier):
     parts.append({'name': 'typed', 'kind': 'E2',
                   'run': (lambda: run_typed(tier)), 'budget_s': 600,
                   'bounds': {'scripts': 'C16 generator, widths <= 9'}})
+    parts.append({'name': 'inline_history', 'kind': 'E2',
+                  'run': (lambda: run_inline_history(tier)), 'budget_s': 600,
+                  'bounds': {'history': 'one change of a body numeral between '
+                             'two collect_information calls'}})
     for fam in SYMFAMS:
         parts.append({'name': fam, 'fn': make_symidx(fam),
                       'setup': _sym_setup, 'reset': _sym_reset,
@@ -881,6 +966,9 @@ def extra_coverage(results):
 def replay(part, cex):
     """Re-run the instance through the real code in a fresh interpreter and
     decide it again (z3, then cvc5 as second opinion)."""
+    if part == 'inline_history':
+        r = run_inline_history('quick')
+        return r['exc']['msg'] if r['exc'] else None
     if part in SYMFAMS:
         # native run of the same check on the solver's numerals, then the
         # concrete instance is decided by z3 as in the enumerated families
